@@ -16,7 +16,7 @@ namespace Axl2Wb
 structure Sys where
   br  : A2WState
   mem : Mem          -- the partner's memory
-  g   : AxlGhost     -- observer of the AXI-Lite port
+  g   : AxlGhost Mem -- observer of the AXI-Lite port
 
 variable (c : A2WCfg)
 
@@ -31,40 +31,136 @@ def sys (mem0 : Mem) : Machine (AxlM × WbOracle) Sys (AxlS × WbM × WbS) where
   out := sysOut c
   next s i :=
     let o := sysOut c s i
-    { br := next s.br i.1 o.2.2, mem := wbMemNext c.nb s.mem o.2.1 i.2, g := s.g.next c.nb (wbAdr c) i.1 o.1 }
+    { br := next s.br i.1 o.2.2, mem := wbMemNext c.nb s.mem o.2.1 i.2, g := s.g.next (byteWr c.nb (wbAdr c)) i.1 o.1 }
 
 /-- The bridge with an arbitrary Wishbone partner (its answers are free inputs) and observers on both ports. -/
 structure OSys where
   br : A2WState
-  g  : AxlGhost     -- AXI-Lite port (reference memory unused)
+  g  : AxlGhost Unit -- AXI-Lite port (no reference store)
   h  : WbGhost      -- Wishbone port (reference memory unused)
 
 def osys : Machine (AxlM × WbS) OSys (AxlS × WbM) where
-  init := { br := init, g := AxlGhost.init (fun _ => 0), h := WbGhost.init (fun _ => 0) }
+  init := { br := init, g := AxlGhost.init (), h := WbGhost.init (fun _ => 0) }
   out s i := (toMaster s.br i.1 i.2, toSlave c s.br i.1)
   next s i :=
-    { br := next s.br i.1 i.2, g := s.g.next 0 id i.1 (toMaster s.br i.1 i.2),
+    { br := next s.br i.1 i.2, g := s.g.next (fun _ _ _ _ => ()) i.1 (toMaster s.br i.1 i.2),
       h := s.h.next 0 id (toSlave c s.br i.1) i.2 }
 
 /-- Fairness observer: `wOver` counts the write transactions started while a read address has been waiting
     (continuously valid, not yet accepted); `rOver` symmetrically. -/
 structure FSys where
   br    : A2WState
-  g     : AxlGhost
+  g     : AxlGhost Unit
   wOver : Nat
   rOver : Nat
 
 def fsys : Machine (AxlM × WbS) FSys (AxlS × WbM) where
-  init := { br := init, g := AxlGhost.init (fun _ => 0), wOver := 0, rOver := 0 }
+  init := { br := init, g := AxlGhost.init (), wOver := 0, rOver := 0 }
   out s i := (toMaster s.br i.1 i.2, toSlave c s.br i.1)
   next s i :=
     let o := toMaster s.br i.1 i.2
     let br' := next s.br i.1 i.2
-    { br := br', g := s.g.next 0 id i.1 o
+    { br := br', g := s.g.next (fun _ _ _ _ => ()) i.1 o
       wOver := if i.1.arvalid && !o.arready then
                  s.wOver + (match s.br.st, br'.st with | .idle, .doWrite => 1 | _, _ => 0) else 0
       rOver := if i.1.awvalid && !o.awready then
                  s.rOver + (match s.br.st, br'.st with | .idle, .doRead => 1 | _, _ => 0) else 0 }
 
 end Axl2Wb
+/-! ### Wishbone2AXILite over an AXI-Lite byte memory -/
+namespace Wb2Axl
+
+structure Sys where
+  br : W2AState
+  p  : AxlMemState   -- the partner
+  g  : WbGhost       -- observer of the Wishbone port
+
+variable (c : W2ACfg) (nb : Nat)
+
+/-- Word of the partner memory a Wishbone address reaches (as built: see `axAddr`). -/
+def amap (adr : Nat) : Nat := axAddr c adr / nb
+
+/-- Signals of one cycle: Wishbone answers, AXI-Lite requests, AXI-Lite responses. -/
+def sysOut (s : Sys) (i : WbM × AxlOracle) : WbS × AxlM × AxlS :=
+  let r := AxlMem.out s.p i.2
+  (toMaster s.br i.1 r, toSlave c s.br i.1, r)
+
+def sys (mem0 : Mem) : Machine (WbM × AxlOracle) Sys (WbS × AxlM × AxlS) where
+  init := { br := init, p := AxlMem.init mem0, g := WbGhost.init mem0 }
+  out := sysOut c
+  next s i :=
+    let o := sysOut c s i
+    { br := next s.br i.1 o.2.2, p := AxlMem.next nb s.p i.2 o.2.1, g := s.g.next nb (amap c nb) i.1 o.1 }
+
+/-- The bridge with an arbitrary AXI-Lite partner and observers on both ports. -/
+structure OSys where
+  br : W2AState
+  g  : WbGhost      -- Wishbone port (reference memory unused)
+  h  : AxlGhost Unit -- AXI-Lite port (no reference store)
+
+def osys : Machine (WbM × AxlS) OSys (WbS × AxlM) where
+  init := { br := init, g := WbGhost.init (fun _ => 0), h := AxlGhost.init () }
+  out s i := (toMaster s.br i.1 i.2, toSlave c s.br i.1)
+  next s i :=
+    { br := next s.br i.1 i.2, g := s.g.next 0 id i.1 (toMaster s.br i.1 i.2),
+      h := s.h.next (fun _ _ _ _ => ()) (toSlave c s.br i.1) i.2 }
+
+end Wb2Axl
+/-! ### AXILiteSRAM: the simple-port front end on a byte memory with synchronous read -/
+namespace AxlSramM
+
+/-- `AXILiteSRAM` with its storage viewed as a byte memory (`Mem`): `dat_r` is the word at the registered port
+    address in the current content (Migen WRITE_FIRST port; a read-only SRAM never changes its content). -/
+structure Sys where
+  fe   : SimpleState
+  mem  : Mem
+  radr : Nat
+  g    : AxlGhost Mem
+
+variable (c : SimpleCfg)
+
+def sys (mem0 : Mem) : Machine AxlM Sys AxlS where
+  init := { fe := Simple.init, mem := mem0, radr := 0, g := AxlGhost.init mem0 }
+  out s m := Simple.toMaster s.fe m
+  next s m :=
+    let p := Simple.port c s.fe m
+    { fe := Simple.next c s.fe m (s.mem.readWord c.nb s.radr)
+      mem := if p.wr then s.mem.writeWord c.nb p.adr p.strb p.datw else s.mem
+      radr := p.adr
+      g := s.g.next (byteWr c.nb (Simple.portAdrOf c)) m (Simple.toMaster s.fe m) }
+
+end AxlSramM
+
+/-! ### AXILite2CSR over a register file -/
+namespace Axl2Csr
+
+/-- Register map: CSR address → value. -/
+abbrev Regs := Nat → Nat
+
+def regRd (c : SimpleCfg) : RdFn Regs := fun r a => r (Simple.portAdrOf c a)
+/-- A write with any strobe bit set replaces the whole register; an all-zero strobe writes nothing. -/
+def regWr (c : SimpleCfg) : WrFn Regs :=
+  fun r a st d => if st != 0 then (fun k => if k = Simple.portAdrOf c a then d else r k) else r
+
+/-- The bridge in front of a register file that answers like a CSR bank: `dat_r` is a register loaded every
+    cycle with the value of the register addressed in that cycle; `we` stores `dat_w`. -/
+structure Sys where
+  fe    : SimpleState
+  regs  : Regs
+  rword : Nat
+  g     : AxlGhost Regs
+
+variable (c : SimpleCfg)
+
+def sys (regs0 : Regs) : Machine AxlM Sys (AxlS × CsrM) where
+  init := { fe := Simple.init, regs := regs0, rword := 0, g := AxlGhost.init regs0 }
+  out s m := (Simple.toMaster s.fe m, toSlave c s.fe m)
+  next s m :=
+    let q := toSlave c s.fe m
+    { fe := Simple.next c s.fe m s.rword
+      regs := if q.we then (fun k => if k = q.adr then q.datw else s.regs k) else s.regs
+      rword := s.regs q.adr
+      g := s.g.next (regWr c) m (Simple.toMaster s.fe m) }
+
+end Axl2Csr
 end Litex.Bridge
